@@ -96,9 +96,10 @@ _canon_cache = {}
 def canonical_digest(template):
     """snapshot digest of the canonical spelling, loaded first in a fresh interpreter"""
     if template not in _canon_cache:
-        env = dict(os.environ, PYTHONPATH="/verif")
-        out = subprocess.run([sys.executable, "-c", "import sys; sys.path.insert(0, '/verif'); from checks import c16; c16._print_canon(sys.argv[1])", template],
-                             capture_output=True, text=True, env=env, cwd="/verif", timeout=120)
+        root = os.path.dirname(os.path.dirname(os.path.abspath(__file__)))
+        env = dict(os.environ, PYTHONPATH=root)
+        out = subprocess.run([sys.executable, "-c", "import sys; from checks import c16; c16._print_canon(sys.argv[1])", template],
+                             capture_output=True, text=True, env=env, cwd=root, timeout=120)
         if out.returncode != 0:
             raise RuntimeError("canonical load failed: " + out.stderr[-400:])
         _canon_cache[template] = out.stdout.strip().splitlines()[-1]
